@@ -215,3 +215,28 @@ Proof. vm_compute. reflexivity. Qed.
 
 Example C14_ex_header : wf_header (mkHeader 1 (repeatb x11 32) (repeatb x22 32) 5 6 7).
 Proof. repeat split; vm_compute; reflexivity. Qed.
+
+(* the abstract transaction-codec hypotheses are satisfiable: a one-byte toy codec meets all three, and a block of
+   three toy transactions goes through stream and parse (with the merkle check on) *)
+Definition toy_parse : parser byte := fun s => match s with [] => Raise E_STRUCT | b :: r => Ret (b, r) end.
+Definition toy_stream (b : byte) : bytes := [b].
+Example C14_ex_codec :
+  tx_parser_consumes byte toy_parse /\ (forall t, tx_frame byte toy_parse toy_stream t) /\
+  tx_parser_exact byte toy_parse toy_stream.
+Proof.
+  repeat split.
+  - intros [|b s] t r E; [discriminate|]. injection E as _ <-. cbn. apply le_n.
+  - intros [|b s] t r E; [discriminate|]. injection E as <- <-. reflexivity.
+Qed.
+
+Example C14_ex_block :
+  let txh := fun b : byte => repeatb b 32 in
+  let ts := [x01; x02; x03] in
+  let h := mkHeader 1 (repeatb x11 32) (merkle_root toyH (map txh ts)) 5 6 7 in
+  match block_stream byte toy_stream (mkBlock byte h ts) with
+  | Ret s => length s = 84 /\
+             block_parse byte toy_parse txh toyH true true (s ++ [xff]) = Ret (mkBlock byte h ts, [xff]) /\
+             block_parse byte toy_parse txh toyH true true (firstn 36 s ++ [x00] ++ skipn 37 s) = Raise E_BADMERKLE
+  | _ => False
+  end.
+Proof. vm_compute. repeat split. Qed.
